@@ -219,7 +219,13 @@ def run_one(tape, cfg):
         out.decoded["faults"] = [[[list(t), k] for t, k in f.items()] for f in plan]
         for fail in plan:
             with tape.span("sched"):
-                obs = sr.run_graph(tape, spec, request, rcfg, fail=fail)
+                # debugging aid of the schedulers: the failed task is re-executed in the calling
+                # thread, where it raises again (the statement still applies to what the call raises)
+                rerun = tape.chance(1, 6, "rerun_locally")
+                obs = sr.run_graph(tape, spec, request, rcfg, fail=fail,
+                                   extra_kw={"rerun_exceptions_locally": True} if rerun else None)
+            if rerun:
+                out.probe("rerun_exceptions_locally")
             out.info["executions"] = out.info.get("executions", 0) + 1
             nraise = sum(1 for e in obs.log if e[0] == "raise")
             out.faults["task_raises"] = out.faults.get("task_raises", 0) + nraise
